@@ -26,6 +26,11 @@ Leg C  (property oracle)
   C3  free-running threads in a fresh subprocess (first-use compilation of the typed kernels happens
       concurrently; tiny switch interval): same comparison.  Support only: real preemption is not
       controlled, so this leg can only add cases, never be the sole witness of a finding.
+Shared state other than the COO caches — the dictionary of a shared DOK array, the process-global warnings
+filters — is the business of harness/c13_shared.py (sentinel, preemption leg, correspondence of the two further
+transition systems of Model/SharedReads.lean); the worlds of C2 / C3 share DOK, GCXS and COO operands (also ones
+that hold explicitly stored fill values) and include calls that merely warn.  Worker threads of this harness
+never touch process-global state themselves.
 """
 from __future__ import annotations
 
@@ -54,6 +59,10 @@ TRUSTED = [
     "tie T2: the traced cooperative scheduler of this file (sys.settrace line events as scheduling points); model and implementation "
     "compared per quantum on the parking line, per call on the outcome, and on the final deque / dict",
     "numba nogil kernels are not modelled: they are assumed to write only into buffers they allocate (C11) and are exercised by legs C2/C3",
+    "CPython's dictionary-iterator rule (dictiter_iternextitem compares di_used with ma_used first) and Lib/warnings.py's catch_warnings / "
+    "simplefilter / filterwarnings / warn as transcribed in Model/SharedReads.lean; validated per quantum against the real interpreter by the rigs of c13_shared.py",
+    "the catalogue of warnings the library can emit: NumPy's floating-point warnings (fixed list in the model) plus every warnings.warn of the package (generated table)",
+    "tools/tables.d/C13.py (ast): the classification of every mention of self.data in class DOK, the filters of every catch_warnings block, the warn sites",
 ]
 SPARSE_DIR = str(Path(core.REPO) / "sparse") + os.sep
 CORE_PY = str(Path(core.REPO) / "sparse" / "numba_backend" / "_coo" / "core.py")
@@ -691,6 +700,9 @@ def raw13(thunk):
         return ("err", e)
 
 
+NEW_CALLS = ("dok:", "gcxs:", "coo:stored", "warn:")
+
+
 def outcome13(raw):
     """comparable form (type, shape, dtype, fill value, every element / the exception with its message), computed by the main thread"""
     import c13_shared
@@ -711,7 +723,8 @@ def stress_traced(ctx, rng, mode):
 
     baseline_of(ctx.seed)
     base = baseline_of(ctx.seed)  # (the first pass compiles every kernel the calls need)
-    n_sched = 60 if ctx.quick else 1500
+    n_new = 16 if ctx.quick else 400
+    n_sched = (60 if ctx.quick else 1500) + n_new
     stats = {"schedules": 0, "quanta": 0, "calls": 0, "switches": 0, "deadline_s": 0.0}
 
     def wanted(code):
@@ -730,10 +743,13 @@ def stress_traced(ctx, rng, mode):
         snaps = {k: snapshot(v) for k, v in ops.items()}
         nth = int(rng.choice([2, 2, 3, 4, 6, 8, 12, 16]))
         per = 1 if nth > 8 else int(rng.integers(1, 4))
-        if rng.random() < 0.5:  # a cache-heavy mix
+        first_gen = [c for c in calls if not c[0].startswith(NEW_CALLS)]
+        if j >= n_sched - n_new:  # the last schedules: DOK / stored-fill / warning calls, mixed with conversions and shape calls that edit the filters
+            pool = [c for c in calls if c[0].startswith(NEW_CALLS + ("convert:gcxs", "convert:tocoo", "shape:concat", "index:gcxs", "reshape:cached"))]
+        elif rng.random() < 0.5:  # a cache-heavy mix
             pool = [c for c in calls if c[0].startswith(("transpose:cached", "reshape:cached", "dot:tensordot", "convert:chain"))]
         else:
-            pool = calls
+            pool = first_gen
         progs = [[pool[int(rng.integers(len(pool)))] for _ in range(per)] for _ in range(nth)]
         if rng.random() < 0.6:
             pol, pname = PCT(rng, nth, int(rng.integers(2, 6)), est), "pct"
@@ -878,6 +894,9 @@ def run(ctx):
         "can orphan a deque when two threads race; values stay correct; exercised by the stress legs only)",
         "scheduling points of the traced scheduler are source lines: a real CPython 3.12 thread switch happens at a subset of them (calls, backward jumps)",
         "leg C3 (free-running threads) is uncontrolled and therefore only supportive",
+        "the process starts with a warnings filter list without harmful entries (Python's default): an entry is harmful iff its action is 'error' and it has no message or "
+        "matches a warning of the catalogue; a transient or lasting 'ignore' entry (can_store, density, html_table) can only make another thread lose a warning and is recorded, not reported",
+        "quick tier: the sentinel worker stops starting cases when its 40 s budget is spent (coverage then depends on the machine's load; every reported failure was observed)",
     ]
     import c13_shared
 
@@ -897,7 +916,7 @@ def run(ctx):
         mode = timed("cache", leg_cache, ctx, rng)
         timed("memo", leg_memo, ctx, rng)
         harm = c13_shared.Harm(ctx)
-        timed("models", c13_shared.leg_models, ctx, rng, harm)
+        timed("models", c13_shared.leg_models, ctx, gen.rng_for(ctx.seed, "C13-models"), harm)  # (own stream: the stress schedules stay what they were)
         if mode is not None:
             timed("stress_traced", stress_traced, ctx, rng, mode)
         timed("preempt", c13_shared.preempt_leg, ctx, harm)
@@ -918,7 +937,11 @@ def run(ctx):
         "`sampled` = random schedules for 2-4 threads, 0-3 initial entries, 1-2 calls per thread), replayed on the real code by the traced "
         "scheduler and on the Lean model, compared per quantum; A:memo:* likewise for _memoize_dtype.wrapped; C:stress-traced = one PCT or "
         "random-walk schedule over every executed line of sparse/ for 2-16 threads x 1-3 whole operations on shared operands vs the sequential "
-        "baseline; non-trivial = the schedule actually switches between threads; distinct by content hash (configuration + schedule)")
+        "baseline; non-trivial = the schedule actually switches between threads; distinct by content hash (configuration + schedule); "
+        "A:dict:<config> / A:filters:<config> = one complete interleaving of DOK.todense / asformat / __setitem__ at the lines touching self.data, resp. of can_store "
+        "blocks and a warning call at the lines of the with-block, on the real code and on the model; C:sentinel:<table>:<operation>:<format> = one read operation run "
+        "alone under instrumentation (non-trivial = an operand has an element); C:preempt:<kinds> = one schedule `thread 0 for k quanta, thread 1 to the end, thread 0 to "
+        "the end` (or the non-nested four-phase order) on the shared world, every executed line of sparse/ a scheduling point")
 
 
 def replay(ctx, path):
